@@ -265,6 +265,12 @@ func runC01(tier string, seed uint64) {
 		{{"Content-Type", "application/x-verif"}, {"X-Amz-Meta-One", ""}, {"X-Amz-Meta-Sym", ""}}, // empty values are values too
 		{{"Content-Type", "text/plain; charset=utf-8"}, {"Content-Encoding", "gzip"}, {"Content-Disposition", `attachment; filename="a b.txt"`}, {"X-Amz-Meta-Long", strings.Repeat("v", 900)}, {"X-Amz-Meta-Sym", "a=b;c, d"}},
 	}
+	// media types that are valid but not spelt the way a formatter would spell them: a stored header is
+	// what was sent, byte for byte
+	for _, ct := range []string{"text/html;charset=utf-8", "Text/Plain", `application/json; charset="utf-8"`, "text/plain; format=flowed; charset=us-ascii", "text/plain;  charset=UTF-8",
+		"APPLICATION/X-Verif; Q=1", "text/plain ; charset=utf-8", "multipart/mixed; boundary=\"a b\"", "text/x-a;b=c;a=d", "not a media type at all", "text/plain;"} {
+		metas = append(metas, []KV{{"Content-Type", ct}, {"Content-Disposition", "ATTACHMENT;filename=x.txt"}, {"Content-Encoding", "GZip"}, {"X-Amz-Meta-Ct", ct}})
+	}
 	for _, kind := range allKinds {
 		for _, noInt := range []bool{false, true} {
 			s := newSess("c01", kind, SessOpts{NoIntegrity: noInt})
@@ -347,6 +353,9 @@ func runC01(tier string, seed uint64) {
 			}
 			for _, k := range keys {
 				round(k, rng.Bytes(100+rng.Intn(50)), metas[rng.Intn(len(metas))], rng.Intn(5))
+			}
+			for mi := 4; mi < len(metas); mi++ {
+				round(fmt.Sprintf("content-type/%d", mi), rng.Bytes(20), metas[mi], []int{0, 1, 3, 0}[mi%4])
 			}
 			if !noInt {
 				for _, sz := range big {
